@@ -12,7 +12,9 @@ use vhdl_lang::{Message, Source};
 impl VHDLServer {
     pub fn text_document_did_open_notification(&mut self, params: &DidOpenTextDocumentParams) {
         let TextDocumentItem { uri, text, .. } = &params.text_document;
-        let file_name = uri_to_file_name(uri);
+        let Some(file_name) = uri_to_file_name(uri) else {
+            return;
+        };
         if let Some(source) = self.project.get_source(&file_name) {
             source.change(None, text);
             self.project.update_source(&source);
@@ -38,7 +40,9 @@ impl VHDLServer {
     }
 
     pub fn text_document_did_change_notification(&mut self, params: &DidChangeTextDocumentParams) {
-        let file_name = uri_to_file_name(&params.text_document.uri);
+        let Some(file_name) = uri_to_file_name(&params.text_document.uri) else {
+            return;
+        };
         if let Some(source) = self.project.get_source(&file_name) {
             for content_change in params.content_changes.iter() {
                 let range = content_change.range.map(from_lsp_range);
@@ -61,7 +65,7 @@ impl VHDLServer {
     ) -> Option<Location> {
         let source = self
             .project
-            .get_source(&uri_to_file_name(&params.text_document.uri))?;
+            .get_source(&uri_to_file_name(&params.text_document.uri)?)?;
 
         let ent = self
             .project
@@ -75,7 +79,7 @@ impl VHDLServer {
     ) -> Option<Location> {
         let source = self
             .project
-            .get_source(&uri_to_file_name(&params.text_document.uri))?;
+            .get_source(&uri_to_file_name(&params.text_document.uri)?)?;
 
         let ent = self
             .project
@@ -89,7 +93,7 @@ impl VHDLServer {
     ) -> Option<Location> {
         let source = self
             .project
-            .get_source(&uri_to_file_name(&params.text_document.uri))?;
+            .get_source(&uri_to_file_name(&params.text_document.uri)?)?;
 
         let ent = self
             .project
@@ -103,7 +107,7 @@ impl VHDLServer {
     ) -> Option<GotoDefinitionResponse> {
         let source = self
             .project
-            .get_source(&uri_to_file_name(&params.text_document.uri))?;
+            .get_source(&uri_to_file_name(&params.text_document.uri)?)?;
 
         let ents = self
             .project
@@ -119,7 +123,7 @@ impl VHDLServer {
     pub fn text_document_hover(&mut self, params: &TextDocumentPositionParams) -> Option<Hover> {
         let source = self
             .project
-            .get_source(&uri_to_file_name(&params.text_document.uri))?;
+            .get_source(&uri_to_file_name(&params.text_document.uri)?)?;
         let ent = self
             .project
             .find_declaration(&source, from_lsp_pos(params.position))?;
@@ -136,11 +140,8 @@ impl VHDLServer {
     }
 
     pub fn text_document_references(&mut self, params: &ReferenceParams) -> Vec<Location> {
-        let ent = self
-            .project
-            .get_source(&uri_to_file_name(
-                &params.text_document_position.text_document.uri,
-            ))
+        let ent = uri_to_file_name(&params.text_document_position.text_document.uri)
+            .and_then(|file_name| self.project.get_source(&file_name))
             .and_then(|source| {
                 self.project.find_declaration(
                     &source,
@@ -165,7 +166,7 @@ impl VHDLServer {
     ) -> Option<Vec<DocumentHighlight>> {
         let source = self
             .project
-            .get_source(&uri_to_file_name(&params.text_document.uri))?;
+            .get_source(&uri_to_file_name(&params.text_document.uri)?)?;
 
         let ent = self
             .project
